@@ -50,6 +50,8 @@ Definition blk_std (nr nc nrs ncs : nat) (blk : string -> nat -> nat -> list (li
 Definition no_mblk (_ : string) (_ : nat) : bval := WErr.
 Definition no_blk (_ : string) (_ _ : nat) : list (list xq) := [].
 Definition no_mflag (_ _ : string) : bool := false.
+Definition no_arg (_ : string) : bval := WErr.
+Definition no_dimtype (_ : nat) : string := "".
 
 Definition benv_std (nr nc : nat) (rsubs csubs : list subtotal)
            (cubem : string -> string -> list (list xq))
@@ -61,19 +63,40 @@ Definition benv_std (nr nc : nat) (rsubs csubs : list subtotal)
   mkBenv nr nc (List.length rsubs) (List.length csubs)
          (cube_std nr nc cubem cubev) cubeflag
          (blk_std nr nc (List.length rsubs) (List.length csubs) blk) mblk mflag
-         (fun _ => WErr) WErr
+         (fun _ => WErr) WErr no_arg no_dimtype []
          (strat_std cubem nr nc rsubs csubs 0)
          (fun _ _ => NaN).
+
+(* the same with the dimension types of the slice by name ([dt 0] rows, [dt 1] columns) and the
+   frozensets of enums.DIMENSION_TYPE (Gen/Tables.v [tbl_DT_sets]) *)
+Definition benv_dims (nr nc : nat) (rsubs csubs : list subtotal)
+           (cubem : string -> string -> list (list xq))
+           (cubeflag : string -> string -> bool)
+           (dt : nat -> string) (sets : list (string * list string)) : benv :=
+  mkBenv nr nc (List.length rsubs) (List.length csubs)
+         (cube_std nr nc cubem cv0) cubeflag
+         (blk_std nr nc (List.length rsubs) (List.length csubs) no_blk) no_mblk no_mflag
+         (fun _ => WErr) WErr no_arg dt sets
+         (strat_std cubem nr nc rsubs csubs 0)
+         (fun _ _ => NaN).
+(* DT.ARRAY_TYPES: a dimension of sub-variables (no sum across its elements) *)
+Definition is_array_type (t : string) : bool := in_set t ["CA_SUBVAR"; "MR_SUBVAR"; "NUM_ARRAY"].
+
+(* scalar.py: the constructor arguments by parameter name *)
+Definition benv_args (arg : string -> bval) : benv :=
+  mkBenv 0 0 0 0 (fun _ _ => WErr) (fun _ _ => false) (fun _ _ _ => WErr) no_mblk no_mflag
+         (fun _ => WErr) WErr arg no_dimtype [] (fun _ _ _ _ _ _ _ _ => NaN) (fun _ _ => NaN).
 
 (* a strand: n base rows, the cube-measure attributes by name, stripe SumSubtotals = [vstrat_std] *)
 Definition benv_strand (n : nat) (subs : list subtotal) (cube : string -> string -> bval) : benv :=
   mkBenv n 0 (List.length subs) 0 cube (fun _ _ => false) (fun _ _ _ => WErr) no_mblk no_mflag
-         (fun _ => WErr) WErr (fun _ _ _ _ _ _ _ _ => NaN) (vstrat_std subs 0).
+         (fun _ => WErr) WErr no_arg no_dimtype [] (fun _ _ _ _ _ _ _ _ => NaN) (vstrat_std subs 0).
 
 (* min_base_size_mask.py: the slice's public arrays by name (nr x nc, insertions included), the size *)
 Definition benv_mask (nr nc : nat) (attr : string -> list (list xq)) (size : xq) : benv :=
   mkBenv nr nc 0 0 (fun _ _ => WErr) (fun _ _ => false) (fun _ _ _ => WErr) no_mblk no_mflag
-         (fun a => WMat nr nc (mnth (attr a))) (WScal size) (fun _ _ _ _ _ _ _ _ => NaN) (fun _ _ => NaN).
+         (fun a => WMat nr nc (mnth (attr a))) (WScal size) no_arg no_dimtype []
+         (fun _ _ _ _ _ _ _ _ => NaN) (fun _ _ => NaN).
 
 (* ------------------------------------------------------------------------------------ *)
 (** * tactics *)
@@ -82,6 +105,7 @@ Ltac bases_eval :=
   cbv [beval heval neval bceval index_val broadcast_val bbin cmp_val bc_ok bc_ix blk_rows flag_val
        list_eqb bagrees_mat bagrees_vec bagrees_scal nth_error
        g_nr g_nc g_nrs g_ncs g_cube g_cubeflag g_block g_mblock g_mflag g_slice g_size g_sum2 g_vsum
+       g_arg g_dimtype g_dtsets str_assoc no_arg no_dimtype benv_dims benv_args
        benv_std benv_strand benv_mask cube_std blk_std cv0 cv1 no_mblk no_blk no_mflag
        andb orb negb String.eqb Ascii.eqb Bool.eqb].
 
